@@ -15,7 +15,8 @@ def make(rng, name):
         # both crates whose library is called `helper`: the workspace member and the one outside the workspace
         items = [
             "#[pavex::request_scoped(id = \"%s_GREET\")]\npub fn greet() -> helper::Greeting { let id = fresh(); log(format!(\"ctor %s.greet {} : \", id)); helper::Greeting { id } }" % (U, name),
-            "#[pavex::request_scoped(id = \"%s_SALT\")]\npub fn salt() -> helper_ext::Salt { helper_ext::Salt { id: 7 } }" % U,
+            # a singleton: its type is spelled out in the generated `ApplicationState`, by the path the crate's documentation gives it
+            "#[pavex::singleton(id = \"%s_SALT\")]\npub fn salt() -> helper_ext::Salt { helper_ext::Salt { id: 7 } }" % U,
             "#[pavex::get(path = \"/%s/r0\", id = \"%s_H0\")]\npub fn h0(g: %shelper::Greeting, s: &helper_ext::Salt) -> Response { log(format!(\"handler %s.h0 : {}\", g.id)); Response::ok() }" % (name, U, "&" if by_ref else "", name),
         ]
         bp = [["raw", "{bp}.constructor(%s_GREET);" % U, {"ctor": "greet"}], ["raw", "{bp}.constructor(%s_SALT);" % U, {"ctor": "salt"}],
